@@ -196,8 +196,11 @@ class StreamableHTTPTransport(Transport):
                     else:
                         headers["Authorization"] = f"Bearer {bearer_token}"
 
-            # Add session ID if available
+            # Add session ID if available (header names are case-insensitive: a
+            # session header configured under another spelling is replaced, not doubled)
             if self._session_id:
+                for key in [k for k in headers if k.lower() == "mcp-session-id"]:
+                    del headers[key]
                 headers["Mcp-Session-Id"] = self._session_id
                 logger.debug(f"Including session ID in request: {self._session_id}")
 
